@@ -142,7 +142,26 @@ func runC12(s *Sim) {
 				acts = append(acts, Action{Name: "hostile", W: 4, Do: func() {
 					hostileLeft--
 					s.Nontrivial()
-					kind := Pick(t, "hostile-kind", "wrong-type", "bitflip", "truncate", "random", "splice", "structural", "inflate", "structural", "misaddressed", "flood")
+					kind := Pick(t, "hostile-kind", "wrong-type", "bitflip", "truncate", "random", "splice", "structural", "inflate", "structural", "misaddressed", "flood", "conflicting-open-response")
+					if kind == "conflicting-open-response" {
+						// a well-formed, successful answer to an outstanding upstream open that names the
+						// stream id of a stream the client already has (under another alias)
+						for _, p := range append([]*pend(nil), s.Broker.Pend...) {
+							r, ok := p.Msg.(*message.UpstreamOpenResponse)
+							if !ok || p.Link != l || c.up.B == nil {
+								continue
+							}
+							s.Broker.Drop(p)
+							l.push(&message.UpstreamOpenResponse{RequestID: r.RequestID, AssignedStreamID: c.up.B.ID, AssignedStreamIDAlias: r.AssignedStreamIDAlias,
+								ResultCode: message.ResultCodeSucceeded, ResultString: "OK", DataIDAliases: map[uint32]*message.DataID{}, ExtensionFields: &message.UpstreamOpenResponseExtensionFields{}})
+							l.DeliverAll()
+							s.Stat("fault.corrupt-conflicting-open-response")
+							s.Logf("hostile: open response %d reuses the stream id of u0 under alias %d", r.RequestID, r.AssignedStreamIDAlias)
+							return
+						}
+						s.Stat("c12.conflicting-open-response-skipped")
+						return
+					}
 					s.Stat("fault.corrupt-" + kind)
 					// base frame: the next pending reply if any, else a fresh pong-like frame
 					var base []byte
